@@ -259,7 +259,7 @@ def close_vec(a, b, rtol=1e-9, atol=0.0):
     return False, "max |diff| %.3e at %d (%.12g vs %.12g), scale %.3e" % (err, k, a[k], b[k], scale)
 
 
-def close_jac(Ja, Jb, rtol=1e-7, atol=0.0, fvals=None, xvals=None, noise=1e-12):
+def close_jac(Ja, Jb, rtol=1e-7, atol=0.0, fvals=None, xvals=None, noise=1e-12, Jb2=None):
     """column-scale-relative comparison of two dense Jacobians.
 
     tol_ij = rtol * (largest entry of column j in either matrix) + noise * |f_i| / |x_j| + atol.
@@ -285,6 +285,13 @@ def close_jac(Ja, Jb, rtol=1e-7, atol=0.0, fvals=None, xvals=None, noise=1e-12):
         tol = tol + noise * fs[:, None] / xs[None, :]
     tol = np.maximum(tol, 1e-300)
     D = np.abs(Ja - Jb)
+    if Jb2 is not None:
+        # Jb2: a second estimate of Jb (finite differences with another step). Entries on which the two estimates do not
+        # agree with each other to a quarter of the tolerance are numerically unreliable (cancellation inside compute())
+        # and are not compared.
+        Jb2 = np.asarray(Jb2, dtype=float)
+        unreliable = ~(np.abs(Jb - Jb2) <= 0.25 * tol)
+        D = np.where(unreliable, 0.0, D)
     bad = D > tol
     if not bad.any():
         return True, ""
